@@ -116,7 +116,9 @@ def run_unit(ck, unit):
                           on_sat=lambda m: ('violation', ck.write_replay(safe(label), {'rule': yaml, 'opts': opts}), label + ': always panics'))
             continue
 
-        def on_sat(model, opts=opts, rj=rj, label=label):
+        excused = []
+
+        def on_sat(model, opts=opts, rj=rj, label=label, excused=excused):
             docj = tr.render_doc(model)
             n0 = br.call(cmd='eval_tree', expr=base['expr'], idents=base['idents'], doc=docj, mode='flat')
             n1 = br.call(cmd='eval_tree', expr=rj['expr'], idents=rj['idents'], doc=docj, mode='flat')
@@ -133,16 +135,90 @@ def run_unit(ck, unit):
             key = classify(base, rj, opts)
             kf = ck.known_match(key)
             if kf:
+                excused.append((key, docj))
                 return ('known', '%s :: %s' % (key, kf['desc']))
             return ('violation', path, '%s: original=%s optimised=%s on %s [%s]' % (
                 label, n0['verdict'], n1['verdict'], json.dumps(docj), key))
         ck.obligation(label + ':same-verdict', tr.uni, (o['res'] == T) != (v['res'] == T),
                       sample={'rule': name, 'opts': opts, 'optimised': rj['display'][:160]}, on_sat=on_sat)
+        if excused:
+            beyond_known(ck, tr, br, base, rj, opts, o, v, label, yaml, *excused[0])
         # the optimised form must not panic where the original does not
         ck.obligation(label + ':no-new-panic', tr.uni, z3.And(z3bool(v['panic']), z3.Not(z3bool(o['panic']))),
                       on_sat=lambda m, label=label, opts=opts, rj=rj: ('violation', ck.write_replay(
                           safe(label) + '_panic', {'rule': yaml, 'opts': opts, 'doc': tr.render_doc(m), 'tree': rj['display']}),
                           label + ': optimised tree can panic'))
+
+
+def beyond_known(ck, tr, br, base, rj, opts, o, v, label, yaml, key, docj):
+    """A recorded finding must not hide anything else in the same obligation.  The recorded C01 findings are
+    re-orderings (and a dropped double negation, and merged entries of a counted identifier): with the counted
+    identifiers of the optimised rule substituted into the original and both trees brought into one order normal form,
+    they disappear.  So (1) the excused witness must be a document on which the normal forms agree, and (2) z3 decides
+    `orig != opt  and  norm(orig') != norm(opt)`: any model, replayed natively on the real trees, is a disagreement the
+    recorded findings do not explain -> VIOLATION.  (3) a substituted identifier must still be the same predicate."""
+    override = None
+    if not opts[0]:
+        o_ids = {bytes(k): val for k, val in rj['idents']}
+        override = {n: o_ids[n] for n in counted_identifiers(base) if n in o_ids}
+    nb, no = normalise_tree(base, override), normalise_tree(rj)
+    ck.obligations += 1
+    x0 = br.call(cmd='eval_tree', expr=nb['expr'], idents=nb['idents'], doc=docj, mode='flat')
+    x1 = br.call(cmd='eval_tree', expr=no['expr'], idents=no['idents'], doc=docj, mode='flat')
+    if 'verdict' not in x0 or 'verdict' not in x1:
+        ck.inconclusive.append('%s: normal form does not evaluate natively: %r %r' % (label, x0, x1))
+        return
+    if x0['verdict'] != x1['verdict']:
+        path = ck.write_replay(safe(label) + '_unexplained', {'rule': yaml, 'opts': opts, 'doc': docj, 'classified_as': key,
+                                                              'normal_form_original': nb['expr'], 'normal_form_optimised': no['expr'],
+                                                              'native_normal_forms': [x0, x1]})
+        ck.violations.append((path, '%s: original and optimised disagree on %s and the recorded finding %s does not explain it '
+                                    '(the order normal forms disagree as well)' % (label, json.dumps(docj), key)))
+        return
+    ck.discharged += 1
+    en, eo = tr.evaluate(nb), tr.evaluate(no)
+    ck.extra['programs'] = ck.extra.get('programs', 0) + 2
+    if en['res'] is None or eo['res'] is None:
+        ck.inconclusive.append('%s: normal form always panics' % label)
+        return
+
+    def on_sat(model):
+        d2 = tr.render_doc(model)
+        n0 = br.call(cmd='eval_tree', expr=base['expr'], idents=base['idents'], doc=d2, mode='flat')
+        n1 = br.call(cmd='eval_tree', expr=rj['expr'], idents=rj['idents'], doc=d2, mode='flat')
+        path = ck.write_replay(safe(label) + '_beyond_known', {'rule': yaml, 'opts': opts, 'doc': d2, 'optimised_tree': rj['display'],
+                                                               'original_tree': base['display'], 'native_original': n0, 'native_optimised': n1,
+                                                               'excused_elsewhere_as': key})
+        if 'verdict' not in n0 or 'verdict' not in n1:
+            return ('spurious', 'native evaluation failed: %r %r' % (n0, n1))
+        ck.replays_ok += 1
+        if n0['verdict'] == n1['verdict']:
+            return ('spurious', 'native verdicts agree on the model (%s)' % path)
+        return ('violation', path, '%s: original=%s optimised=%s on %s, which the recorded finding %s does not explain' % (
+            label, n0['verdict'], n1['verdict'], json.dumps(d2), key))
+    ck.obligation(label + ':beyond-known-findings', tr.uni,
+                  z3.And((o['res'] == T) != (v['res'] == T), (en['res'] == T) != (eo['res'] == T)), on_sat=on_sat)
+    for name in sorted(override or {}):
+        ident = {'t': 'Identifier', 'f': list(name)}
+        xb, xo = {'expr': ident, 'idents': base['idents']}, {'expr': ident, 'idents': rj['idents']}
+        eb, eo2 = tr.evaluate(xb), tr.evaluate(xo)
+        nb2, no2 = tr.evaluate(normalise_tree(xb)), tr.evaluate(normalise_tree(xo))
+        if None in (eb['res'], eo2['res'], nb2['res'], no2['res']):
+            continue
+
+        def on_sat3(model, name=name, xb=xb, xo=xo):
+            d3 = tr.render_doc(model)
+            n0 = br.call(cmd='eval_tree', expr=xb['expr'], idents=xb['idents'], doc=d3, mode='flat')
+            n1 = br.call(cmd='eval_tree', expr=xo['expr'], idents=xo['idents'], doc=d3, mode='flat')
+            path = ck.write_replay(safe(label) + '_ident', {'rule': yaml, 'opts': opts, 'doc': d3, 'identifier': name.decode('latin1'),
+                                                            'native_original': n0, 'native_optimised': n1})
+            if 'verdict' not in n0 or 'verdict' not in n1 or n0['verdict'] == n1['verdict']:
+                return ('spurious', 'native verdicts agree on the model (%s)' % path)
+            ck.replays_ok += 1
+            return ('violation', path, '%s: the optimised counted identifier %s is not the predicate it was: %s vs %s on %s' % (
+                label, name.decode('latin1'), n0['verdict'], n1['verdict'], json.dumps(d3)))
+        ck.obligation(label + ':counted-identifier-same-predicate', tr.uni,
+                      z3.And((eb['res'] == T) != (eo2['res'] == T), (nb2['res'] == T) != (no2['res'] == T)), on_sat=on_sat3)
 
 
 def children(j):
